@@ -25,7 +25,7 @@ INVS = ["TypeOK", "BaseDerivable", "BaseZeroIsEither", "MapConsistent", "AcceptD
         "VersionChecked", "EncodingChecked", "NonFlatNeverAccepted"]
 NBASE = {"tiny": 4, "quick": 53, "thorough": 91}
 # deliberately wrong specifications: each must violate the named invariant (vacuity guard for the invariants)
-WRONG = [("enc_name_without_nul", "BaseDerivable"), ("ignore_field_count", "TruncationRejected"), ("budget_is_buffer", "SpliceDisagrees"), ("no_nul_check", "NameNulChecked")]
+WRONG = [("enc_name_without_nul", "BaseDerivable"), ("ignore_field_count", "TruncationRejected"), ("item_budget_is_buffer", "SpliceDisagrees"), ("no_nul_check", "NameNulChecked")]
 ENCORD = {"msg": 0, "tmpl": 1, "frame": 2, "tun": 3, "mtun": 4}
 MICRO_ENV = {"ASAN_OPTIONS": "detect_leaks=0:halt_on_error=0:handle_segv=0:allocator_may_return_null=1:exitcode=66"}
 STACK_KB = 8192           # the nesting cases run with an 8 MiB stack
@@ -76,13 +76,6 @@ def run(v, tier, seed):
         vlib.require_ok(r, "WireMutate %s bases %d..%d" % (menu, lo, hi))
         return r
 
-    def coverage_run():
-        c = cfg(tag, "MC_tiny", "tiny", 1, 1000, False); made.append(c)
-        r = vlib.tlc("WireMutate", c, SD, workers=2, timeout=600, coverage=True)
-        vlib.require_ok(r, "WireMutate tiny (coverage)")
-        vlib.require_coverage(r, ["Trunc", "Word", "Splice"], "WireMutate tiny")
-        return r
-
     def wrong_run(w, inv):
         c = cfg(tag, "Wrong_" + w, "tiny", 1, 1000, False, wrong=w, invs=[inv]); made.append(c)
         r = vlib.tlc("WireMutate", c, SD, workers=2, timeout=600)
@@ -97,10 +90,8 @@ def run(v, tier, seed):
         with cf.ThreadPoolExecutor(max_workers=(6 if quick else 7)) as ex:
             f_build = ex.submit(build)
             f_sh = [ex.submit(enumerate_shard, menu, lo, hi, w) for lo, hi, w in shards]
-            f_cov = ex.submit(coverage_run)
             f_wr = [ex.submit(wrong_run, w, inv) for w, inv in WRONG]
             res = [f.result() for f in f_sh]
-            cov = f_cov.result()
             for (w, inv), f in zip(WRONG, f_wr):
                 if not f.result(): raise vlib.MachineryError("vacuity guard: the deliberately wrong specification (%s) does not violate %s" % (w, inv))
             mini_bin, micro_bin = f_build.result()
@@ -119,6 +110,9 @@ def run(v, tier, seed):
     if nbases != nb: raise vlib.MachineryError("the %s menu has %d bases, %d expected" % (menu, nbases, nb))
     basemsg = {m["base"]: hx(m["b"]) for m in muts if m["enc"] == "msg" and m["k"] == "base" and m["v"] == "A"}
     cases = []; seen = set(); byv = collections.Counter(); bykind = collections.Counter(); why = collections.Counter()
+    bykind_all = collections.Counter((m["enc"], m["k"]) for m in muts)      # = how often TLC took each action (Trunc / Word / Splice), per encoding
+    for a in ("trunc", "word", "splice"):
+        if sum(n for (e, k), n in bykind_all.items() if k == a) == 0: raise vlib.MachineryError("vacuity guard: action %s never taken" % a)
     for m in muts:
         key = (m["enc"], m["base"], hx(m["b"]))
         if key in seen and m["k"] != "base": continue
@@ -171,6 +165,7 @@ def run(v, tier, seed):
             try: idx = int(open(cursor).read().strip())
             except Exception: idx = -1
             nd += 1
+            if rc == 2 or (idx < 0 and rc not in (66, 67, 3, -6, -11, 134, 139)): raise vlib.MachineryError("%s could not run (exit %s): %s %s" % (name, rc, out[-500:], err[-1500:]))
             deaths.append((name, rc, idx, err[-6000:]))
             if nd >= max_deaths or idx < 0 or (time.time() - t0) > timeout: return rows, nd
             start = idx + 1
@@ -198,9 +193,10 @@ def run(v, tier, seed):
     # self-test of the oracle: relabelled / corrupted cases must be flagged by the harness
     base1 = [c for c in cases if c["enc"] == "msg" and c["k"] == "base" and c["v"] == "A"][1]
     trunc1 = [c for c in cases if c["enc"] == "msg" and c["k"] == "trunc" and c["v"] == "R" and c["base"] == base1["base"]][-1]
-    corrupt = dict(base1, k="selftest", b=base1["b"][:8] + "ff" + base1["b"][10:])       # one byte of the what-code changed, still labelled as the same value
-    st = [base1, dict(base1, i=base1["i"], k="selftest", v="R", why="relabelled"), dict(trunc1, k="selftest", v="A"), dict(corrupt, full=base1["b"])]
-    st[3]["enc"] = "msg"
+    tbase = [c for c in cases if c["enc"] == "tmpl" and c["k"] == "base" and c["base"] == base1["base"]][0]
+    st = [base1, dict(base1, k="selftest", v="R", why="relabelled"),                 # a valid encoding labelled MustReject
+          dict(trunc1, k="selftest", v="A"),                                          # a truncation labelled MustAccept
+          tbase, dict(tbase, k="selftest", full=tbase["full"][:8] + "ff" + tbase["full"][10:])]     # the value a payload stands for, with one byte of its what-code changed
     vlib.write_ndjson(W("selftest.ndjson"), st)
 
     def run_selftest():
@@ -248,7 +244,8 @@ def run(v, tier, seed):
             elif r.get("known"):
                 f19["reports"] += 1
                 if "signal" in r["known"][0]: f19["signals"] += 1
-                v.known_finding("F19", "micro reader on an input that is not a complete valid Message (%s): %s" % (r.get("case"), r["known"][0][:160]))
+                if not v.known_finding("F19", "micro reader on an input that is not a complete valid Message (%s): %s" % (r.get("case"), r["known"][0][:160])):
+                    v.violation("micro reader: %s [%s]" % (r["known"][0][:300], r.get("case")), {"report": r, "case": c}, tag=name)
             elif r.get("drift"):
                 v.drift += 1
                 if v.drift <= 5: vlib.log("DRIFT property=C02 %s: %s [%s]" % (r.get("target"), r["drift"][0][:300], r.get("case")))
@@ -263,8 +260,7 @@ def run(v, tier, seed):
         where = next((l.strip() for l in err.splitlines() if l.strip().startswith("#") and ("/repo/" in l or vlib.REPO + "/" in l)), "")
         if name == "micro-hostile" and rc in (66, -11, -7, 67):
             f19["deaths"] += 1
-            v.known_finding("F19", "micro reader on an input that is not a complete valid Message: %s %s" % (kind, first[:160]))
-            continue
+            if v.known_finding("F19", "micro reader on an input that is not a complete valid Message: %s %s" % (kind, first[:160])): continue
         desc = ("case %s: %s %s pos %s %s %s%s -> %s" % (idx, c.get("enc"), c.get("k"), c.get("pos"), c.get("wk"), c.get("sp"), c.get("w"), c.get("v"))) if c else ("case %s of %s" % (idx, name))
         if rc == 3: continue     # the watchdog wrote its own report line
         v.violation("%s: %s while parsing %s | %s | %s" % (name, kind, desc, first[:200], where[:200]), {"harness": name, "exit": rc, "case": c or idx, "stderr": err[-3000:]}, tag=name)
@@ -302,7 +298,8 @@ def run(v, tier, seed):
              "micro_reader_fields_walked_on_valid_inputs": int(tot["micro_fields_walked"]), "F19_reproductions": f19, "mini_accepts_RB": int(tot["mini_RB_accepted"]),
              "nesting": nest_notes, "oracle_selftest_cases_flagged": st_n, "harness_restarts_after_a_dead_process": len(deaths),
              "tlc": {"wall_s": round(t_tlc, 1), "shards": [{"bases": "%d..%d" % (lo, hi), "distinct": r.distinct, "wall_s": round(r.wall, 1)} for (lo, hi, w), r in zip(shards, res)],
-                     "coverage_run": {"distinct": cov.distinct, "actions": {a: cov.coverage.get(a, (0, 0))[0] for a in ("Trunc", "Word", "Splice")}},
+                     "actions_taken": {a: sum(n for (e, k), n in bykind_all.items() if k == a.lower()) for a in ("Trunc", "Word", "Splice")},
+                     "note": "TLC's -coverage mode does not finish on this specification (deep recursive operators: > 3 min for one base); the action counts are measured from the states TLC printed",
                      "invariants": INVS, "wrong_specifications_rejected": ["%s violates %s" % w for w in WRONG]},
              "samples": samples}
     assumptions = ["the 'coverage-guided arbitrary bytes' clause of the property's quantifier is NOT covered (that is fuzzing, another technique); the seeded random mutation pass is extra exploration, not coverage guidance",
